@@ -213,9 +213,8 @@ def r3(ctx: Ctx, rep: Report, fams: Dict[str, Family]):
                 and len(v.args) == 1 and norm(v.args[0]) == "self.raw_data" for v in returned_values(rd.node))
     rep.check(ok_rd, "C02.R3", "response_data", rd.loc(), "response_data() is command.trim_response(raw_data)",
               bad="ProtocolResponse.response_data no longer returns command.trim_response(self.raw_data)")
-    ok_sk = any(isinstance(n, ast.Call) and (call_chain(n) or ())[-1:] == ("seek",) and n.args and isinstance(n.args[0], ast.Call)
-                and (call_chain(n.args[0]) or ())[-1:] == ("get_offset",) and len(n.args[0].args) == 1 and isinstance(n.args[0].args[0], ast.Name)
-                and n.args[0].args[0].id == sk.params[-1] for n in ast.walk(sk.node))
+    from ..astutil import seeks_through_get_offset
+    ok_sk = seeks_through_get_offset(sk)
     rep.check(ok_sk, "C02.R3", "seek", sk.loc(), "seek(address) positions at command.get_offset(address)",
               bad="ProtocolResponse.seek no longer seeks to command.get_offset(address)")
 
@@ -241,6 +240,8 @@ def r5(ctx: Ctx, rep: Report, fams):
                 continue
             n += 1
             verdict, why = classify_written_value(ctx, fn, a)
+            if verdict == "bad":
+                verdict, why = _signed16_on_paths(ctx, fn, ct.node, a, why)
             key = "write-value:%s:%s" % (fn.short, norm(a))
             if verdict == "assumed":
                 rep.note("C02.R5: %s passes the caller-supplied %s to a single-register write (modbus-N escape hatch): assumed within the signed 16-bit domain" % (fn.short, norm(a)))
@@ -271,6 +272,29 @@ def classify_written_value(ctx: Ctx, fn, a: ast.expr) -> Tuple[str, str]:
     if isinstance(a, ast.Call) and norm(a.func) == "int" and len(a.args) == 1 and isinstance(a.args[0], ast.Name) and a.args[0].id in fn.params:
         return "assumed", "int(user value)"
     return "bad", "expression of unknown range"
+
+
+def _signed16_on_paths(ctx: Ctx, fn, call: ast.Call, a: ast.expr, why: str) -> Tuple[str, str]:
+    """Path version: on every path reaching the write, the value is int.from_bytes(X, 'big', signed=True) of a byte
+    string whose length is known to be at most 2 there (whichever way the length test and the branches are written)."""
+    from ..paths import enumerate_paths, no_raise
+    from ..replay import Replay
+    from ..symx import Lin, entails_ge
+    if fn.is_lambda:
+        return "bad", why
+    n = 0
+    for p in enumerate_paths(ctx.prog, fn, no_raise):
+        idx = [i for i, ev in enumerate(p.events) if ev.kind == "call" and ev.node is call]
+        if not idx:
+            continue
+        n += 1
+        rp = Replay(ctx.prog, fn, p)
+        t = rp.sym_at(idx[0]).lin(a).single_term()
+        if not (t is not None and t[0] == "int" and t[2] == "big" and t[3] is True):
+            return "bad", why
+        if not entails_ge(rp.facts_before(idx[0]), Lin.of_const(2) - Lin.of_term(("len", t[1]))):
+            return "bad", "int.from_bytes(..., signed=True) of a byte string not known to be at most 2 bytes long"
+    return ("ok", "int.from_bytes(<=2 bytes, signed=True) on all %d paths" % n) if n else ("bad", why)
 
 
 def _is_signed16_from_bytes(ctx: Ctx, fn, v: ast.expr) -> bool:
